@@ -20,6 +20,8 @@ import (
 	"io"
 	"math/rand"
 	"os"
+	"runtime"
+	"time"
 
 	"github.com/paulmach/osm"
 	"github.com/paulmach/osm/osmpbf"
@@ -182,9 +184,19 @@ type filterCfg struct {
 // scanWith scans with an optional configuration and an optional active consumer.  objs are the
 // snapshots taken at return time; moved != "" when an object changed after it was returned
 // (compared with the state the consumer left it in).
+// lateConfig: the configuration of the next filtered scan is assigned this long after osmpbf.New returned
+// (0 = at once); the fields can only be set after New, and must be honoured for every block however
+// slow the caller is.
+var lateConfig time.Duration
+
 func scanWith(r io.Reader, procs int, cf *filterCfg, active bool) (objs []pbfwire.Obs, status int, errs string, moved string) {
 	sc := osmpbf.New(context.Background(), r, procs)
 	defer sc.Close()
+	if cf != nil && lateConfig > 0 {
+		runtime.Gosched()
+		time.Sleep(lateConfig)
+		runtime.Gosched()
+	}
 	if cf != nil {
 		sc.SkipNodes, sc.SkipWays, sc.SkipRelations = cf.SkipNodes, cf.SkipWays, cf.SkipRelations
 		if cf.Node.Code != 0 {
@@ -247,7 +259,11 @@ func filteredRuns(d *pbfgen.FileDesc, data []byte, cfgs []filterCfg, procs []int
 		}
 		for pi, p := range procs {
 			active := (pi+k)%2 == 1
+			if k == 0 && pi == len(procs)-1 { // one late-configured run per file
+				lateConfig = 5 * time.Millisecond
+			}
 			objs, st, es, moved := scanWith(bytes.NewReader(data), p, cf, active)
+			lateConfig = 0
 			if corrupt && len(objs) > 0 {
 				objs[len(objs)-1].Version++
 			}
